@@ -491,9 +491,13 @@ def glue_contextlib() -> None:
                 varname=f"{stackname}[{idx}]",
                 start_line=context.start_line,
             )
+            # Attach the child before filling it in, so that whatever was
+            # learned about it (and about earlier children) is kept even if
+            # one of the hooks invoked by fill_context() raises
+            children.append(child_context)
+            context.children = children
             _extract.fill_context(child_context)
             child_context.description = f"{tag}{stackname}.{method}({child_context.description or arg or '...'})"
-            children.append(child_context)
 
         context.children = children
 
